@@ -6,7 +6,7 @@
    repaired by the fix: commits 50fc060 and 1070095). *)
 From Coq Require Import ZArith List Bool Lia.
 From Mistletoe Require Import Base.Sx Base.PyStr Base.PyText Gen.GenTables Gen.GenConfig Model.Tree Model.CoreTokens Model.Block Model.Build
-     Model.MarkdownRenderer Model.Parser Proofs.PlainProse Proofs.Prose Proofs.ProseLines Proofs.ListLaw Proofs.FenceLaw Spec.Fragment Proofs.InertProse Proofs.RefSentence Proofs.LinkSentence Proofs.EmphPhrases Proofs.LinkPhrases Proofs.MixPhrases Proofs.CodeSpan Proofs.FragmentP Proofs.FragmentDoc Proofs.FragmentHtml.
+     Model.MarkdownRenderer Model.Parser Proofs.PlainProse Proofs.Prose Proofs.ProseLines Proofs.ListLaw Proofs.FenceLaw Spec.Fragment Proofs.InertProse Proofs.RefSentence Proofs.LinkSentence Proofs.EmphPhrases Proofs.LinkPhrases Proofs.MixPhrases Proofs.CodeSpan Proofs.HardBreaks Proofs.BreakBlocks Proofs.FragmentP Proofs.FragmentDoc Proofs.FragmentHtml.
 Import ListNotations.
 Local Open Scope Z_scope.
 
@@ -272,6 +272,36 @@ Section RT.
     destruct (code_padded code); apply G; try reflexivity; exact PK.
   Qed.
 
+  (* the fragments of a paragraph whose lines end in spaces: every LineBreak writes its spaces and ends the line *)
+  Lemma plain_from_brk : forall ls cur, Forall (fun b : str * nat => mem 10 (fst b) = false /\ fst b <> []) ls -> ls <> [] ->
+    plain_from cur (flat_map frags (brk_toks ls)) = match brk_lines ls with x :: r => (cur ++ x) :: r | [] => [] end.
+  Proof.
+    induction ls as [|[l k] r IH]; intros cur H Hne; [contradiction|]. inversion H as [|? ? [H10 Hl] Hr]; subst. cbn [fst] in H10, Hl.
+    destruct r as [|b r'].
+    - cbn [brk_toks flat_map frags app plain_from ftext Fw brk_lines]. rewrite H10. cbn [plain_from].
+      destruct (cur ++ l) eqn:E; [destruct cur; [destruct l; [contradiction|discriminate]|discriminate]|reflexivity].
+    - change (brk_toks ((l, k) :: b :: r')) with (RawText l :: LineBreak (repeat 32 k) (Nat.ltb k 2) :: brk_toks (b :: r')).
+      rewrite brk_lines_cons.
+      cbn [flat_map frags app plain_from ftext Fw]. rewrite H10. cbn [plain_from ftext].
+      assert (M : mem 10 (repeat 32 k ++ NL) = true) by (unfold mem, NL; rewrite existsb_app; cbn [existsb Z.eqb Pos.eqb orb]; apply orb_true_r).
+      rewrite M. unfold split_nl, NL. rewrite (split_nl_aux_line [] (repeat 32 k) []) by (apply mem_repeat; lia).
+      cbn [split_nl_aux rev app removelast last]. rewrite <- app_assoc.
+      rewrite (IH [] Hr ltac:(discriminate)). destruct (brk_lines (b :: r')) as [|x rr] eqn:E; [|reflexivity].
+      destruct b as [l2 k2]. destruct r'; discriminate.
+  Qed.
+
+  Lemma rt_brk c body k more : wf_b (FBrk c body k more) = true -> RT (FBrk c body k more).
+  Proof.
+    cbn [wf_b]. intros Hw. pose proof (brk_lines_wline _ Hw) as Hall. destruct (brk_para_okb _ Hw) as [Hne Hok].
+    assert (Eb : map bare (spell (FBrk c body k more)) = brk_lines ((c :: body, k) :: more)).
+    { cbn [spell]. rewrite map_map. rewrite <- (map_id (brk_lines _)) at 2. apply map_ext_in. intros l0 Hl0.
+      rewrite Forall_forall in Hall. destruct (Hall l0 Hl0) as (_ & _ & Hn). destruct l0; [contradiction|reflexivity]. }
+    unfold RT, md_lines. rewrite Eb. cbn [tok_of block_lines]. unfold span_to_lines. cbn [fragments_to_lines].
+    rewrite plain_from_brk; [|apply Forall_forall; intros b Hb; rewrite forallb_forall in Hok; destruct (bline_okb_spec b (Hok b Hb)) as (Hp & Hn & _); split; [apply (plain_no 10 _ eq_refl Hp)|exact Hn]|exact Hne].
+    destruct (brk_lines ((c :: body, k) :: more)) as [|x r] eqn:E; [|reflexivity].
+    destruct more; discriminate.
+  Qed.
+
   Lemma rt_fence ch n content : wf_b (FFence ch n content) = true -> RT (FFence ch n content).
   Proof.
     intros Hw. destruct (fence_wf ch n content Hw) as ((Hch & Hn) & Hok & _).
@@ -321,9 +351,9 @@ Section RT.
   Proof.
     induction f as [|f IH].
     - intros t Hd Hw.
-      destruct t as [c body more|ch n content|ts|mk pad ts|mk pad ts bl next|lv hc hb|rc rn|e0 epre ech edbl ew epost|l0 lpre lw ldest lpost|s0 st0' sgs|k0 kpre kcode kpost]; [apply rt_para; exact Hw|apply rt_fence; assumption|cbn [depth] in Hd; lia|cbn [depth] in Hd; lia|cbn [depth] in Hd; lia|apply rt_head; exact Hw|apply rt_rule|apply rt_em; exact Hw|apply rt_link; exact Hw|apply rt_sent; exact Hw|apply rt_tick; exact Hw].
-    - intros t. induction t as [c body more|ch n content|ts|mk pad ts|mk pad ts bl next IHn|lv hc hb|rc rn|e0 epre ech edbl ew epost|l0 lpre lw ldest lpost|s0 st0' sgs|k0 kpre kcode kpost]; intros Hd Hw;
-        [apply rt_para; exact Hw|apply rt_fence; assumption| | | |apply rt_head; exact Hw|apply rt_rule|apply rt_em; exact Hw|apply rt_link; exact Hw|apply rt_sent; exact Hw|apply rt_tick; exact Hw].
+      destruct t as [c body more|ch n content|ts|mk pad ts|mk pad ts bl next|lv hc hb|rc rn|e0 epre ech edbl ew epost|l0 lpre lw ldest lpost|s0 st0' sgs|k0 kpre kcode kpost|b0 bbody bk bmore]; [apply rt_para; exact Hw|apply rt_fence; assumption|cbn [depth] in Hd; lia|cbn [depth] in Hd; lia|cbn [depth] in Hd; lia|apply rt_head; exact Hw|apply rt_rule|apply rt_em; exact Hw|apply rt_link; exact Hw|apply rt_sent; exact Hw|apply rt_tick; exact Hw|apply rt_brk; exact Hw].
+    - intros t. induction t as [c body more|ch n content|ts|mk pad ts|mk pad ts bl next IHn|lv hc hb|rc rn|e0 epre ech edbl ew epost|l0 lpre lw ldest lpost|s0 st0' sgs|k0 kpre kcode kpost|b0 bbody bk bmore]; intros Hd Hw;
+        [apply rt_para; exact Hw|apply rt_fence; assumption| | | |apply rt_head; exact Hw|apply rt_rule|apply rt_em; exact Hw|apply rt_link; exact Hw|apply rt_sent; exact Hw|apply rt_tick; exact Hw|apply rt_brk; exact Hw].
       + (* quote *)
         cbn [wf_b] in Hw. repeat rewrite andb_true_iff in Hw. destruct Hw as [[Hs Hall] Hg].
         assert (Hch : Forall RT ts).
